@@ -655,7 +655,49 @@ fn run_real_case(case_seed: u64, rep: &mut Report, verbose: bool) {
         // keep every coordinate of every reported point inside +-1e3
         let tr = P2 { x: rng.f64_range(-300.0, 300.0), y: rng.f64_range(-300.0, 300.0) };
         let place = |p: P2| add(rot(p, ang), tr);
-        match rng.below(9) {
+        match rng.below(11) {
+            9 => {
+                cx.family = "real: circles with nearly equal radii, inner tangency and its neighbourhood".into();
+                let r1 = rng.f64_range(50.0, 900.0);
+                let delta = *rng.pick(&[1e-6f64, 1e-5, 1e-4, 5e-4, 1e-3, 2e-3, 1e-2, 0.1]);
+                let r2 = r1 - delta;
+                let m = *rng.pick(&[0.0f64, 0.0, 1e-13, -1e-13, 5e-11, -5e-11, 2e-8, -2e-8, 1e-6, -1e-6]);
+                // centres delta + m apart: m = 0 is the inner tangency; centres well away from the origin
+                let d = delta + m;
+                if d <= 0.0 {
+                    return;
+                }
+                let base = P2 { x: rng.f64_range(-60.0, 60.0) + if rng.chance(1, 2) { 40.0 } else { -40.0 }, y: rng.f64_range(-60.0, 60.0) };
+                let c1 = base;
+                let c2 = add(rot(P2 { x: d, y: 0.0 }, ang), base);
+                let da = (c1.x - c2.x).hypot(c1.y - c2.y);
+                let m_out = da - (r1 + r2);
+                let m_in = da - (r1 - r2).abs();
+                cx.rep.inc("nearly_equal_radii_pairs");
+                // the centre distance itself is only known to about 1e-16 * |c|: the kind is asserted when m = 0 was asked
+                // for and the built configuration is within 1e-12 of it, and outside the clear band; points always
+                let near_identical = da < 1e-7 && (r1 - r2).abs() < 1e-7;
+                let (ca, ra, cb, rb) = if rng.chance(1, 2) { (c1, r1, c2, r2) } else { (c2, r2, c1, r1) };
+                judge_cc(&mut cx, ca, ra, cb, rb, m_out, m_in, false, false, false, near_identical);
+            }
+            10 => {
+                cx.family = "real: line cutting a circle close to its centre".into();
+                let r = *rng.pick(&[0.5f64, 3.0, 40.0, 300.0, 800.0]);
+                let d0 = *rng.pick(&[0.0f64, 1e-13, 1e-10, 1e-9, 3e-9, 1e-8, 1e-7, 1e-6, 1e-5, 2e-5, 3e-5, 1e-4, 1e-3, 1e-2]) * if rng.chance(1, 2) { 1.0 } else { -1.0 };
+                let small_tr = P2 { x: rng.f64_range(-100.0, 100.0), y: rng.f64_range(-100.0, 100.0) };
+                let place2 = |p: P2| add(rot(p, ang), small_tr);
+                let c = place2(P2 { x: 0.0, y: 0.0 });
+                let x1 = rng.f64_range(-50.0, 50.0);
+                let x2 = x1 + rng.f64_range(1.0, 80.0) * if rng.chance(1, 2) { 1.0 } else { -1.0 };
+                let (p, q) = (place2(P2 { x: x1, y: d0 }), place2(P2 { x: x2, y: d0 }));
+                let mut ld = LineDef::Points(p, q);
+                if rng.chance(1, 3) {
+                    ld = near_unit(ld, &mut rng);
+                }
+                cx.rep.inc("lines_close_to_the_centre");
+                let actual = ld.sdist(c).abs() - r;
+                judge_cl(&mut cx, c, r, ld, actual, false);
+            }
             8 => {
                 cx.family = "real: very large and very small circle near outer / inner tangency".into();
                 let r1 = rng.f64_range(300.0, 900.0);
